@@ -455,6 +455,7 @@ func (s *Session) applyContract(st *State, con *Contract, callee *ssa.Function, 
 			}
 		}
 	}
+	s.addParamAliases(env, callee)
 	env.st = st
 	for _, c := range con.Ensures {
 		st.assumeG(s.evalBool(st, env, c.E, c.Src), labelGroup(c.Label))
